@@ -175,3 +175,39 @@ def run_goal(goal):
 if __name__ == '__main__':
     r = run_goal({'key': 'units'})
     for o in r['obligations']: print(o['verdict'], o['text'][:100], o['model'] or '')
+
+
+def validate_a7():
+    """thorough tier: build Natural_Units.cpp with g++ and clang++ at -O0 and -O2, read the derived constants back at
+    start-up (from a static constructor that runs before main) and compare with the exact values"""
+    import subprocess, tempfile, shutil
+    order, static, val, problems = analyse()
+    names = ['Joule', 'erg', 'Newton', 'dyne', 'Watt', 'Pa', 'Volt', 'Ohm', 'Tesla', 'Hz', 'cal', 'Farad']
+    wd = tempfile.mkdtemp(prefix='lpv_a7_', dir='/var/tmp')
+    res = []
+    try:
+        drv = os.path.join(wd, 'drv.cpp')
+        open(drv, 'w').write('#include <cstdio>\n#include "libphysica/Natural_Units.hpp"\nusing namespace libphysica::natural_units;\nint main(){' +
+                             ''.join('printf("%s %%.17g\\n", %s);' % (n, n) for n in names) + 'return 0;}\n')
+        for cxx in ('g++', 'clang++'):
+            for opt in ('-O0', '-O2'):
+                exe = os.path.join(wd, 'a_%s_%s' % (cxx.replace('+', 'p'), opt[1:]))
+                r = subprocess.run([cxx, '-std=c++14', opt, '-I' + os.path.join(cast.REPO, 'include'), '-I' + os.path.join(cast.REPO, '_build', 'generated'), '-I/verif/build/generated',
+                                    drv, os.path.join(cast.REPO, 'src', 'Natural_Units.cpp'), os.path.join(cast.REPO, 'src', 'Special_Functions.cpp'), os.path.join(cast.REPO, 'src', 'Linear_Algebra.cpp'),
+                                    os.path.join(cast.REPO, 'src', 'Utilities.cpp'), os.path.join(cast.REPO, 'src', 'Numerics.cpp'), os.path.join(cast.REPO, 'src', 'Statistics.cpp'), os.path.join(cast.REPO, 'src', 'Integration.cpp'),
+                                    '-lconfig++', '-o', exe], capture_output=True, text=True)
+                if r.returncode != 0:
+                    res.append({'compiler': cxx, 'opt': opt, 'ok': None, 'note': 'build failed: ' + r.stderr[-200:]}); continue
+                o = subprocess.run([exe], capture_output=True, text=True, timeout=60).stdout
+                worst = 0.0; bad = []
+                for line in o.split('\n'):
+                    if not line.strip(): continue
+                    n, v = line.split()
+                    exact = val[n]
+                    rel = abs(float(v) - float(exact)) / abs(float(exact)) if float(exact) != 0 else abs(float(v))
+                    worst = max(worst, rel)
+                    if rel > 1e-12: bad.append(n)
+                res.append({'compiler': cxx, 'opt': opt, 'ok': not bad, 'max_relative_deviation': worst, 'deviating': bad})
+    finally:
+        shutil.rmtree(wd, ignore_errors=True)
+    return res
